@@ -318,12 +318,17 @@ def r4_accidentals(ctx):
               f'{"; ".join(sorted(set(bad))[:2])}: notes without a duration (grace notes, stemless notes, exclude=[DURATION]) keep their '
               f'kern pitch under every clef')
     ae = ctx.prog.func(f'{N.TOKENIZERS}.AEKernTokenizer.tokenize')
-    cb = ctx.prog.nested_functions(ae)
     okcb = False
-    for name, f in cb.items():
-        rr = symex.returns(f)
-        q = f.params[0]
-        okcb = okcb or any(src(v) == f"pitch_to_gkern_string(PitchImporterFactory.create('kern').import_pitch({q}), clef)" for _, v, _ in rr)
+    env_ae = G.single_assignments(ae.node)
+    for c in walk_local(ae.node):
+        if not (isinstance(c, ast.Call) and isinstance(c.func, ast.Attribute) and c.func.attr == 'export'):
+            continue
+        cbv = {k.arg: k.value for k in c.keywords}.get('convert_pitch_to_agnostic')
+        if cbv is None:
+            continue
+        for q, val in _callback_values(ctx, ae, G.substitute(cbv, env_ae)):
+            okcb = okcb or (isinstance(val, ast.Call) and F.is_name(val.func, 'pitch_to_gkern_string') and len(val.args) == 2
+                            and src(val.args[0]) == f"PitchImporterFactory.create('kern').import_pitch({q})" and src(val.args[1]) == 'clef')
     ctx.check(okcb, 'R4', ae.loc, ae.qualname, 'callback-shape',
               'the callback converts the sub-token text with the Humdrum importer and the clef in force')
 
@@ -363,49 +368,67 @@ def _pitch_known_empty(ep, source):
     return False
 
 
+def _callback_values(ctx, fi, node, depth=0):
+    """[(parameter name, returned value)] of a one-parameter callable given as a nested function, a lambda, or a lambda / bound
+    method that forwards to a helper (followed once, arguments substituted)."""
+    out = []
+    target = None
+    args_map = None
+    if isinstance(node, ast.Name):
+        target = ctx.prog.nested_functions(fi).get(node.id)
+        if target is not None:
+            q = target.params[0] if target.params else None
+            return [(q, v) for _, v, _ in symex.returns(target)]
+    if isinstance(node, ast.Lambda) and len(node.args.args) == 1:
+        q = node.args.args[0].arg
+        body = node.body
+        if isinstance(body, ast.Call) and depth == 0:
+            try:
+                t, bound = F._static_callee(ctx, body, fi)
+            except AnalysisError:
+                t, bound = None, False
+            if t is not None and not t.module.generated:
+                try:
+                    b_ = F.bind_args(body, t, bound and t.kind in ('method', 'classmethod'))
+                except AnalysisError:
+                    b_ = None
+                if b_ is not None:
+                    for _, v, _ in symex.returns(t):
+                        out.append((q, G.substitute(v, dict(b_), recursive=False)))
+                    return out
+        return [(q, body)]
+    return out
+
+
 def r5_clefs(ctx):
+    """The checker's evaluator interprets create_clef on the clef texts of the claimed domain: the class of the object that is
+    built on the path taken - with and without octave marks."""
     cc = ctx.prog.func(f'{GK}.ClefFactory.create_clef')
     enc = cc.params[1]
-    # non-interference of the octave marks: the variable that collects ^/v is not used in any test or return
-    deco_vars = set()
-    for n in walk_local(cc.node):
-        if isinstance(n, ast.Assign) and isinstance(n.targets[0], ast.Name) and ("'^'" in src(n.value) or "'v'" in src(n.value)):
-            deco_vars.add(n.targets[0].id)
-    used = set()
-    for n in walk_local(cc.node):
-        if isinstance(n, (ast.If, ast.Return, ast.IfExp)):
-            for s in ast.walk(n.test if isinstance(n, (ast.If, ast.IfExp)) else (n.value or ast.Constant(value=None))):
-                if isinstance(s, ast.Name) and s.id in deco_vars:
-                    used.add(s.id)
-    ctx.check(not used, 'R5', cc.loc, cc.qualname, 'octave-marks-interfere',
-              'the clef returned does not depend on the octave marks ^ / v', f'the clef choice reads {sorted(used)}')
-    env = G.single_assignments(cc.node)
-    nm = src(env.get('name')) if 'name' in env else None
-    ln = src(env.get('line')) if 'line' in env else None
-    ok_extract = nm is not None and 'CLEF_NAMES' in nm and ln is not None and 'isdigit' in ln
-    ctx.check(ok_extract, 'R5', cc.loc, cc.qualname, 'clef-extraction', 'clef letter = first of G/F/C, line = first digit')
-    want = {('G', None): 'GClef', ('F', 3): 'F3Clef', ('F', 4): 'F4Clef', ('C', 1): 'C1Clef', ('C', 2): 'C2Clef', ('C', 3): 'C3Clef', ('C', 4): 'C4Clef'}
-    sps = symex.func_sym_paths(cc)
+    want = {('G', 2): 'GClef', ('F', 3): 'F3Clef', ('F', 4): 'F4Clef', ('C', 1): 'C1Clef', ('C', 2): 'C2Clef', ('C', 3): 'C3Clef', ('C', 4): 'C4Clef'}
+
+    def built(text):
+        end, val, sp = F.interpret(ctx, cc, {enc: text})
+        if end != 'return' or not isinstance(val, ast.Call):
+            return end
+        c = F.constructed_class(ctx, val, cc)
+        return c.name if c is not None else src(val.func)
+    marks_bad = []
     for (letter, line), clsname in want.items():
-        got = set()
-        for sp in sps:
-            okp = True
-            for node, truth in sp.path.conds():      # the original tests, over the locals `name` and `line`
-                node2 = _subst_names(node, {'name': letter, 'line': line if line is not None else 2})
-                ok, v = F.eval_concrete(ctx, node2, {'cls.CLEF_NAMES': ['C', 'F', 'G']}, cc.module)
-                if not ok:
-                    okp = None
-                    break
-                if bool(v) != truth:
-                    okp = False
-                    break
-            if okp is None:
-                raise AnalysisError(f'{cc.loc}: condition outside the dispatch fragment')
-            if okp:
-                got.add((sp.end, src(sp.value.func) if isinstance(sp.value, ast.Call) else src(sp.value) if sp.value is not None else None))
-        label = f'{letter}{line or ""}'
-        ctx.check(got == {('return', clsname)}, 'R5', cc.loc, cc.qualname, f'clef-dispatch:{label}', f'*clef{label} -> {clsname}',
-                  f'*clef{label} -> {sorted(got, key=str)}; expected {clsname}')
+        label = f'{letter}{line}'
+        got = built(f'*clef{letter}{line}')
+        ctx.check(got == clsname, 'R5', cc.loc, cc.qualname, f'clef-dispatch:{label}', f'*clef{label} -> {clsname}',
+                  f'*clef{label} -> {got}; expected {clsname}')
+        for marks in ('v', '^', 'vv', '^^'):
+            g2 = built(f'*clef{letter}{marks}{line}')
+            if g2 != got:
+                marks_bad.append((f'*clef{letter}{marks}{line}', g2, got))
+    ctx.check(not marks_bad, 'R5', cc.loc, cc.qualname, 'octave-marks-interfere',
+              'the clef returned does not depend on the octave marks ^ / v (28 marked clef texts interpreted)',
+              f'the octave marks change the clef: {marks_bad[:2]}')
+    for text in ('*clefF5', '*clefC5'):
+        got = built(text)
+        ctx.check(got == 'raise', 'R5', cc.loc, cc.qualname, f'clef-invalid-line:{text}', f'{text} is rejected', f'{text} -> {got}')
     # bottom_line of each clef is a constant AgnosticPitch
     for clsname in set(want.values()):
         f = ctx.prog.func(f'{GK}.{clsname}.bottom_line')
